@@ -18,7 +18,7 @@ func init() {
 	property("C10",
 		"Static conformance of command pass-through: (a) every iteration of the argument loop either appends the (constant-substituted) literal of the current token, closes the argument, or takes one inline arm, and then advances by exactly one token; the loop ends at the matching ')' with parenthesis depth counted on '(' / ')', and a non-empty last argument is flushed; (b) a command is rendered as TAB name [SPACE args joined by ', '] NEWLINE from constant formats; (c) statements of a chunk are rendered in order, one render per element; (d) the command name is the token literal, never constant-substituted. Hoisted-argument patching is covered by C06.a/b/c.",
 		[]string{"go/ssa lowering is faithful to the source"},
-		"C10.a", "C10.b", "C10.c", "C10.d", "C10.e", "C06.a", "C06.b", "C06.c", "C12.a", "C13.a", "C15.d", "C01.b", "C08.a", "C18.g", "C01.h", "C19.e", "C10.f", "C19.f", "C16.d")
+		"C10.a", "C10.b", "C10.c", "C10.d", "C10.e", "C06.a", "C06.b", "C06.c", "C12.a", "C13.a", "C15.d", "C01.b", "C08.a", "C18.g", "C01.h", "C19.e", "C10.f", "C19.f", "C16.d", "C13.d")
 	property("C11",
 		"Static conformance of AutoVar handling: (a) an AutoVar operand is recognised as an identifier configured in autovar_commands, parsed with the ordinary command parser, and its result var is the configured name or the argument at the configured position (bounds-checked), taken verbatim; (b) the parsed command is attached as the preamble of exactly the leaf whose operand is that result var (type VAR), and for switch it is placed immediately before the switch statement; (c) the leaf renders its preamble with the ordinary command renderer exactly once, before the comparison, iff present; each leaf owns one chunk and loops re-enter at the condition's entry chunk (C02.e, C01.e).",
 		[]string{"scheme argument of DESIGN §4 C11"},
@@ -608,25 +608,33 @@ func c10a(c *Ctx) {
 	c.Check(okExit, "arg-loop/exit", c.W.Pos(argPhi.Pos()), "the loop ends at ')' with depth 0", "the argument loop's normal exit is not (current token is ')' and parenthesis depth is 0)")
 	// depth counting
 	var up, down bool
+	otherDepth := ""
 	for i, e := range depthPhi.Edges {
-		_ = i
 		var leaves []ssa.Value
 		phiLeaves(e, map[ssa.Value]bool{depthPhi: true}, &leaves)
+		if !head.Dominates(head.Preds[i]) {
+			continue // the initial value
+		}
 		for _, lf := range leaves {
 			bo, ok := lf.(*ssa.BinOp)
 			if !ok {
+				// anything carried round the loop other than depth, depth+1, depth-1 (a reset, say)
+				otherDepth = pretty(c.term(fn, lf))
 				continue
 			}
 			must := c.mustLits(fn, bo.Block())
 			t := c.term(fn, bo)
-			if t == c.term(fn, depthPhi)+"+1" && hasLit(must, "+("+cur+`.Type == "(")`) {
+			switch {
+			case t == c.term(fn, depthPhi)+"+1" && hasLit(must, "+("+cur+`.Type == "(")`):
 				up = true
-			}
-			if t == c.term(fn, depthPhi)+"-1" && hasLit(must, "+("+cur+`.Type == ")")`) {
+			case t == c.term(fn, depthPhi)+"-1" && hasLit(must, "+("+cur+`.Type == ")")`):
 				down = true
+			default:
+				otherDepth = pretty(t)
 			}
 		}
 	}
+	c.Check(otherDepth == "", "arg-loop/depth-only-counts", c.W.Pos(depthPhi.Pos()), "the depth is only ever kept, incremented on '(' or decremented on ')'", "the parenthesis depth can become "+otherDepth+" inside the loop: nested parentheses would end the argument list early or late")
 	c.Check(up && down, "arg-loop/depth", c.W.Pos(depthPhi.Pos()), "depth +1 on '(' and -1 on ')'", "parenthesis depth is not incremented exactly on '(' and decremented exactly on ')'")
 	// every iteration: exactly one nextToken on every path from header back to header (besides the typed-string arm's extra advance)
 	isNext := func(in ssa.Instruction) bool { ci, ok := in.(ssa.CallInstruction); return ok && callee(ci) == nt }
@@ -1085,6 +1093,42 @@ func c10e(c *Ctx) {
 	pps := c.Fn("parser.Parser.parsePoryswitchStatement")
 	if ps == nil || pps == nil {
 		return
+	}
+	// the file level: every statement the top-level parser returns is kept — exactly the non-nil
+	// ones (const and text statements are kept elsewhere and come back as nil); every explicit
+	// text statement becomes a program text
+	if pp, top := c.Fn("parser.Parser.ParseProgram"), c.Fn("parser.Parser.parseTopLevelStatement"); pp != nil && top != nil {
+		for _, call := range callsToIn(pp, top) {
+			var kept []*ssa.Store
+			for _, st := range storesToField(pp, "ast", "Program", "TopLevelStatements") {
+				for _, e := range appendElems(st.Val) {
+					if derivedFrom(e, call.(ssa.Value), 0) {
+						kept = append(kept, st)
+					}
+				}
+			}
+			ok := len(kept) == 1
+			why := fmt.Sprintf("expected one append of the parsed statement to TopLevelStatements, found %d", len(kept))
+			if ok {
+				rel := c.guardsBeyondErrors(pp, kept[0].Block())
+				base := c.guardsBeyondErrors(pp, call.Block())
+				res := c.term(pp, appendElems(kept[0].Val)[0])
+				want := dnfAndLit(base, "-("+res+" == nil)")
+				ok = dnfEquiv(rel, want)
+				why = "a parsed top-level statement is kept under [" + rel.String() + "], expected exactly when it is not nil [" + want.String() + "]: statements would be dropped depending on what they contain"
+			}
+			c.Check(ok, "ParseProgram/top-level-kept", c.W.Pos(call.Pos()), "every non-nil top-level statement is appended to the program", why)
+		}
+		nText := 0
+		for _, st := range storesToField(pp, "ast", "Program", "Texts") {
+			if loopHeaders(pp)[st.Block()] == nil {
+				continue
+			}
+			nText++
+			w, skip := loopSkip(pp, st)
+			c.Check(!skip, "ParseProgram/every-text-statement-kept", c.W.Pos(st.Pos()), "every explicit text statement becomes a program text", "some text statements do not become program texts (an iteration can reach "+c.nearPos(w)+" without the append): a label that commands refer to would not be defined")
+		}
+		c.Check(nText == 1, "ParseProgram/text-statements-loop", c.W.FuncPos(pp), "one loop turns the explicit text statements into program texts", fmt.Sprintf("found %d appends of explicit text statements to program.Texts, expected 1", nText))
 	}
 	for _, name := range []string{"parser.Parser.parseBlockStatement", "parser.Parser.parseSwitchBlockStatement", "parser.Parser.parsePoryswitchStatements"} {
 		fn := c.Fn(name)
